@@ -1528,9 +1528,9 @@ def gen_progress():
 
 
 # ----------------------------------------------------------------------------------------------
-# (F) workspace/workspace.py   (update_notebook_document is NOT translated: it mutates objects through
-#     aliases - `notebook = self._notebook_documents[uri]; notebook.version = ..`, the index dict nb_cells -
-#     and PyMini has values, not references)
+# (F) workspace/workspace.py   (update_notebook_document mutates objects through aliases -
+#     `notebook = self._notebook_documents[uri]; notebook.version = ..`, the index dict nb_cells: those locals
+#     are translated as PATHS into self, see _aliases)
 
 def _reflect_workspace():
     import copy, inspect
